@@ -1,5 +1,7 @@
 (** * C07 runner: the model of round_error.rs on Flocq binary64 (the instance the float-tier
-    theorems are about) against the f64 build, bit for bit. *)
+    theorems are about) against the f64 build, bit for bit.
+    Path tags: 1 + op for ops 0..23 (see [apply_op]); op 24 = ApproxFloat::from_bounds: 25 returned as given, 26 its
+    debug assertion fired as [af_from_bounds_debug_ok] predicts. *)
 From G3 Require Import Run.Harness Model.RoundError.
 From Flocq Require Import IEEE754.BinarySingleNaN.
 From Flocq Require Import Core BinarySingleNaN.
@@ -25,8 +27,22 @@ Section Run.
     | _ => let '(mx, mn) := max_min4 al ah bl bh in (mn, mx)
     end%N.
 
+  (** op 24 = [ApproxFloat::from_bounds]: outputs [low; high; panicked; debug build] (the last two zero / non-zero).
+      Tags: 25 = returned the pair as given, 26 = the [debug_assert!(high >= low)] fired in a debug build, as the
+      model's [af_from_bounds_debug_ok] predicts. *)
+  Definition sf_is_zero (s : spec_float) : bool := match s with S754_zero _ => true | _ => false end.
+  Definition chk_from_bounds (i o : list spec_float) : N :=
+    let l := ofSF (nthsf i 0) in let h := ofSF (nthsf i 1) in
+    let panicked := negb (sf_is_zero (nthsf o 2)) in
+    let debug := negb (sf_is_zero (nthsf o 3)) in
+    if debug && negb (af_from_bounds_debug_ok l h) then (if panicked then 26%N else 0%N)
+    else if panicked then 0%N
+    else let a := af_from_bounds l h in
+         if sf_eqb (toSF (low a)) (toSF (ofSF (nthsf o 0))) && sf_eqb (toSF (high a)) (toSF (ofSF (nthsf o 1))) then 25%N else 0%N.
+
   Definition chk (c : N * list spec_float * list spec_float) : N :=
     let '(op, i, o) := c in
+    if N.eqb op 24 then chk_from_bounds i o else
     let '(rl, rh) := apply_op op (ofSF (nthsf i 0)) (ofSF (nthsf i 1)) (ofSF (nthsf i 2)) (ofSF (nthsf i 3)) in
     if sf_eqb (toSF rl) (toSF (ofSF (nthsf o 0))) && sf_eqb (toSF rh) (toSF (ofSF (nthsf o 1))) then N.succ op else 0%N.
   Definition show (c : N * list spec_float * list spec_float) : list spec_float :=
